@@ -57,10 +57,26 @@ def flow_prescribers(ix):
             continue
         cols = pit_cols(ki)
         if "MDOTINIT" in cols:
-            a = _has_tbl_sym(cols["MDOTINIT"])
+            a = _is_tbl_column(cols["MDOTINIT"])
             if a is not None:
                 out.append((c, a[3]))
     return out
+
+
+def _is_tbl_column(v):
+    """the user-table column when, in some case, the value IS that column (coefficient 1, nothing else): a prescribed value.
+    A start guess *computed from* user columns (the pipe's initial mass flow from its diameter) is not a prescription."""
+    v = tonum(v)
+    for gd, p in v.cases:
+        st_ = p.single_term()
+        if st_ is None:
+            continue
+        mono, coef = st_
+        if coef == 1 and len(mono) == 1:
+            (atom, exp), = mono if not isinstance(mono, dict) else list(mono.items())
+            if exp == 1 and isinstance(atom, tuple) and len(atom) > 3 and atom[0] == "sym" and atom[1] == "tbl":
+                return atom
+    return None
 
 
 def _identity_cond(val, const, colname):
